@@ -139,6 +139,50 @@ def _significant(toks):
     ]
 
 
+_VALUE_CAST_TYPES = {"int", "long", "short", "char", "unsigned int", "unsigned long", "unsigned char", "unsigned short", "long long",
+                     "float", "double", "bint", "Py_ssize_t", "ssize_t", "size_t",
+                     "int8", "int16", "int32", "int64", "uint8", "uint16", "uint32", "uint64", "float32", "float64",
+                     "np.int8_t", "np.int16_t", "np.int32_t", "np.int64_t", "np.uint8_t", "np.uint16_t", "np.uint32_t", "np.uint64_t",
+                     "np.float32_t", "np.float64_t", "CodeType", "CodeType1", "CodeType2"}
+
+
+def _operand_end(sig, k, path):
+    """index (in `sig`) of the last token of the unary operand that starts at sig[k]: prefixes, an atom, its trailers"""
+    n = len(sig)
+
+    def close(i):
+        depth = 0
+        while i < n:
+            if sig[i].type == tokenize.OP and sig[i].string in "([{":
+                depth += 1
+            elif sig[i].type == tokenize.OP and sig[i].string in ")]}":
+                depth -= 1
+                if depth == 0:
+                    return i
+            i += 1
+        raise LoweringError(f"{path}: unbalanced brackets after a cast")
+    while k < n and sig[k].type == tokenize.OP and sig[k].string in ("-", "+", "~", "&", "<"):
+        if sig[k].string == "<":
+            while k < n and not (sig[k].type == tokenize.OP and sig[k].string == ">"):
+                k += 1
+        k += 1
+    if k >= n:
+        raise LoweringError(f"{path}: cast without operand")
+    if sig[k].type == tokenize.OP and sig[k].string in "([{":
+        k = close(k)
+    elif sig[k].type not in (tokenize.NAME, tokenize.NUMBER, tokenize.STRING):
+        raise LoweringError(f"{path}:{sig[k].start[0]}: unexpected operand of a cast: {sig[k].string!r}")
+    while k + 1 < n:
+        nx = sig[k + 1]
+        if nx.type == tokenize.OP and nx.string in "([":
+            k = close(k + 1)
+        elif nx.type == tokenize.OP and nx.string == "." and k + 2 < n and sig[k + 2].type == tokenize.NAME:
+            k += 2
+        else:
+            break
+    return k
+
+
 def lower(path, source=None):
     if source is None:
         with open(path, encoding="utf-8") as f:
@@ -508,8 +552,16 @@ def lower(path, source=None):
                 j += 1
             if j >= n:
                 raise LoweringError(f"{path}:{t.start[0]}: unterminated cast")
-            casts.append((t.start[0], _text(sig[i + 1 : j])))
-            ed.append((t.start, sig[j].end, ""))
+            ctype_txt = _text(sig[i + 1 : j])
+            casts.append((t.start[0], ctype_txt))
+            if ctype_txt.strip() in _VALUE_CAST_TYPES:
+                # a conversion between number types changes the value (truncation, wrap-around): it stays visible to the rules
+                # as __cast__("T", operand); pointer / object casts reinterpret and are dropped
+                end = _operand_end(sig, j + 1, path)
+                ed.append((t.start, sig[j].end, f'__cast__("{ctype_txt.strip()}", '))
+                ed.append((sig[end].end, sig[end].end, ")"))
+            else:
+                ed.append((t.start, sig[j].end, ""))
             i = j + 1
             continue
         if t.type == tokenize.OP and t.string == "&" and operand_position(i):
